@@ -146,11 +146,19 @@ fn classify<I, T, E>(r: &Result<(I, T), Err<E>>) -> Cls {
     }
 }
 
+/// the pretty form ({:#?}: one line per field, through an indenting adapter) is several times slower than the compact one; it is produced
+/// for every result whose compact form is at most this long (what goes wrong in a pretty printer depends on the shape of a value -
+/// an empty field, a nesting level - not on its size)
+const PRETTY_LIMIT: usize = 4096;
+
 /// run one entry point: parse (measured), then format the result while it is alive (measured)
 fn ep<'a, T: Debug>(i: &'a [u8], f: impl FnOnce(&'a [u8]) -> IResult<&'a [u8], T>) -> EpOut {
     let (r, parse) = alloc::measure(|| f(i));
     let cls = classify(&r);
-    let (_s, fmt) = alloc::measure(|| format!("{:?}", r).len() + format!("{:#?}", r).len());
+    let (_s, fmt) = alloc::measure(|| {
+        let n = format!("{:?}", r).len();
+        n + if n <= PRETTY_LIMIT { format!("{:#?}", r).len() } else { 0 }
+    });
     EpOut { parse, fmt, cls }
 }
 
@@ -159,7 +167,10 @@ fn epd<'a, T: Debug + std::fmt::Display>(i: &'a [u8], f: impl FnOnce(&'a [u8]) -
     let (r, parse) = alloc::measure(|| f(i));
     let cls = classify(&r);
     let (_s, fmt) = alloc::measure(|| {
-        let mut n = format!("{:?}", r).len() + format!("{:#?}", r).len();
+        let mut n = format!("{:?}", r).len();
+        if n <= PRETTY_LIMIT {
+            n += format!("{:#?}", r).len();
+        }
         if let Ok((_, v)) = &r {
             n += format!("{}", v).len() + format!("{:#}", v).len();
         }
@@ -230,7 +241,8 @@ trait FmtViaDebug {
 }
 impl<'x, T: Debug> FmtViaDebug for MaybeDebug<'x, T> {
     fn fmt_len(&self) -> usize {
-        format!("{:?}", self.0).len() + format!("{:#?}", self.0).len()
+        let n = format!("{:?}", self.0).len();
+        n + if n <= PRETTY_LIMIT { format!("{:#?}", self.0).len() } else { 0 }
     }
 }
 trait FmtNotAtAll {
